@@ -529,6 +529,67 @@ pub fn sell(sh: Decimal, px: Decimal, sfl: Option<SFLInput>) -> TxActionSpecific
     })
 }
 
+/// Figures at the ends of the range C05 names (magnitude below 10^12, ten decimal places): huge and
+/// tiny share counts, prices and rates, forced superficial losses of 1e-10.
+pub fn gen_extreme_case(r: &mut Rng) -> LedgerCase {
+    let names = ["Default", "Spouse"];
+    let uni = AffUniverse::new(&names);
+    let affs: Vec<Affiliate> = names.iter().map(|n| Affiliate::from_strep(n)).collect();
+    let big = Decimal::new(999_999_999_999, 0);
+    let tiny = Decimal::new(1, 10);
+    let pick = |r: &mut Rng, zero_ok: bool| -> Decimal {
+        match r.below(8) {
+            0 | 1 => big,
+            2 | 3 => tiny,
+            4 if zero_ok => Decimal::ZERO,
+            5 => Decimal::new(999_999_999_999, 10) + Decimal::new(99, 0),
+            _ => Decimal::new(r.range(1, 100000), 2),
+        }
+    };
+    let mut day = BASE_JD + 100;
+    let mut txs = Vec::new();
+    let mut have = Decimal::ZERO;
+    let n = 2 + r.below(4);
+    for i in 0..n {
+        day += *r.pick(&[0, 1, 10, 40]);
+        let af = if r.chance(80) { affs[0].clone() } else { affs[1].clone() };
+        let px = pick(r, true);
+        let rate = if r.chance(50) { Decimal::ONE } else { pick(r, false) };
+        let cur = if rate == Decimal::ONE { "CAD" } else { "USD" };
+        let act = if i == 0 || have.is_zero() || r.chance(35) {
+            let sh = pick(r, false);
+            have += sh;
+            TxActionSpecifics::Buy(BuyTxSpecifics {
+                shares: pos(sh),
+                amount_per_share: gez(px),
+                commission: gez(if r.chance(70) { Decimal::ZERO } else { pick(r, true) }),
+                tx_currency_and_rate: cer(cur, rate),
+                separate_commission_currency: None,
+            })
+        } else {
+            let sh = if r.chance(60) { have } else { pick(r, false).min(have) };
+            have -= sh;
+            let sfl = if r.chance(35) {
+                Some(SFLInput { superficial_loss: LessEqualZeroDecimal::try_from(-tiny).unwrap(), force: true })
+            } else {
+                None
+            };
+            TxActionSpecifics::Sell(SellTxSpecifics {
+                shares: pos(sh),
+                amount_per_share: gez(px),
+                commission: gez(Decimal::ZERO),
+                tx_currency_and_rate: cer(cur, rate),
+                separate_commission_currency: None,
+                specified_superficial_loss: sfl,
+            })
+        };
+        let mut t = mk_tx(day, &af, act);
+        t.read_index = txs.len() as u32;
+        txs.push(t);
+    }
+    LedgerCase { uni, init: None, txs }
+}
+
 /// Bulk positions in a cheap foreign-currency stock: 10^5..10^7 shares at a few cents or dollars,
 /// exchange rates with ten decimal places, so that per-share figures sit within 1e-9 of a whole
 /// cent while totals are large (any per-share rounding shows up in the totals).
